@@ -21,9 +21,9 @@ PATTERNS = [('a', False), ('ab', False), ('A', False), ('b+', True), ('a*', True
 
 
 class HistGen:
-    def __init__(self, rng, weights=None, kinds=(0, 1), odd=False, bad=0.0, max_pool=7, unicode_=True, maxlen=8):
+    def __init__(self, rng, weights=None, kinds=(0, 1), odd=False, bad=0.0, max_pool=7, unicode_=True, maxlen=8, esc=0.0):
         self.r = rng
-        self.g = Gen(rng, odd=odd, bad=bad, unicode_=unicode_)
+        self.g = Gen(rng, odd=odd, bad=bad, unicode_=unicode_, esc=esc)
         w = dict(DEFAULT_W)
         if weights is not None:
             w = {k: weights.get(k, 0) for k in ALL_OPS}
